@@ -59,6 +59,31 @@ def replay(ctx, rec, found):
             report("reset-not-fresh", len(h), {"after_reset": a, "fresh_element": b})
 
 
+def construction(ctx):
+    """Documented construction rules of the accumulators (the element kinds of the model use the valid forms)."""
+    import lena.core
+    import lena.math
+    import lena.structures
+    Sum = lena.math.Sum
+    cases = [
+        ("Vectorize:list-with-dim", lambda: lena.math.Vectorize([Sum(), Sum()], dim=2), "LenaTypeError"),
+        ("Vectorize:element-without-dim", lambda: lena.math.Vectorize(Sum()), "LenaTypeError"),
+        ("Vectorize:not-fill-compute", lambda: lena.math.Vectorize(lambda x: x, dim=2), "LenaTypeError"),
+        ("Histogram:bins-and-make_bins", lambda: lena.structures.Histogram([0, 1, 2], bins=[0, 0], make_bins=lambda: [0, 0]),
+         "LenaTypeError"),
+        ("Histogram:bins-of-wrong-shape", lambda: lena.structures.Histogram([0, 1, 2], bins=[0, 0, 0]), "LenaValueError"),
+    ]
+    for name, make, want in cases:
+        try:
+            make()
+            got = "accepted"
+        except Exception as exc:      # noqa
+            got = al.exc_name(exc)
+        ctx.case(["construction", name])
+        if got != want:
+            ctx.violation("%s:%s" % (name, got), {"expected": want, "observed": got})
+
+
 def run(ctx):
     import lena  # noqa
     tag = "thorough" if ctx.thorough else "quick"
@@ -87,6 +112,7 @@ def run(ctx):
         ctx.sample({"spec_behaviour": recs[(2 * len(recs)) // 3]})
     for key in sorted(found):
         ctx.violation(key, found[key])
+    construction(ctx)
     # ---- code -> spec
     rnd = random.Random(ctx.seed)
     histories = []
@@ -99,8 +125,9 @@ def run(ctx):
         histories.append(events)
     validate_histories(ctx, histories)
     return ctx.finish(
-        rule="S2C: every history over {fill(v), compute, reset} of the bounded Accumulators model (25 element "
-             "kinds) replayed on the real element, every compute compared, suffix after the last reset replayed on "
+        rule="S2C: every history over {fill(v), compute, reset} of the bounded Accumulators model (37 element "
+             "kinds, 45 in the thorough tier; Vectorize over lists of different elements with None padding, dim 3, "
+             "construct) replayed on the real element, every compute compared, suffix after the last reset replayed on "
              "a new element; non-trivial = at least one fill; C2S: seeded random histories (<= 22/30 operations, "
              "random ints, full-mantissa floats of mixed magnitude, random contexts/edges) validated step by step "
              "by Trace_Accumulators with all invariants",
